@@ -311,7 +311,99 @@ func ruleReuseValidatesTail(c *Ctx, r *Reporter) {
 		}
 	}
 	if okRec {
-		r.OK("wal.Reader.readRecord:eof-pass-through", c.FnPos(rec), "io.EOF is only ever the unchanged result of the header read (nothing read at all)")
+		r.OK("wal.Reader.readRecord:eof-pass-through", c.FnPos(rec), "io.EOF is never returned explicitly")
+	}
+	// io.ReadFull answers a plain io.EOF when it could not read a single byte. That is a clean end only for the FIRST read
+	// of a record; a later read (payload after a complete header) that passes its error through unchanged turns a record
+	// cut right behind its header into a clean end of file.
+	var reads []*ssa.Call
+	AllInstrs(rec, false, func(_ *ssa.Function, ins ssa.Instruction) {
+		if call, ok := ins.(*ssa.Call); ok {
+			switch staticName(call) {
+			case "io.ReadFull", "io.ReadAtLeast", "(*bufio.Reader).Read":
+				reads = append(reads, call)
+			}
+		}
+	})
+	if len(reads) == 0 {
+		r.Undecided("wal.Reader.readRecord:reads", c.FnPos(rec), "no read call found")
+	}
+	for i, rd := range reads {
+		first := true
+		for _, other := range reads {
+			if other != rd && Dominates(other, rd) {
+				first = false
+			}
+		}
+		if first {
+			continue
+		}
+		rd := rd
+		isRaw := func(v ssa.Value) bool {
+			v = resolveLoad(stripConv(v))
+			if ex, ok := v.(*ssa.Extract); ok && ex.Tuple == ssa.Value(rd) {
+				return true
+			}
+			return false
+		}
+		notEOF := func(cond ssa.Value) (bool, bool) {
+			bo, ok := cond.(*ssa.BinOp)
+			if ok && (bo.Op == token.EQL || bo.Op == token.NEQ) {
+				x, y := bo.X, bo.Y
+				if globalLoad(x) != nil {
+					x, y = y, x
+				}
+				if g := globalLoad(y); g != nil && g.Name() == "EOF" && isRaw(x) {
+					return bo.Op == token.NEQ, bo.Op == token.EQL
+				}
+			}
+			if call, ok := cond.(*ssa.Call); ok && staticName(call) == "errors.Is" && len(call.Call.Args) == 2 && isRaw(call.Call.Args[0]) {
+				if g := globalLoad(call.Call.Args[1]); g != nil && g.Name() == "EOF" {
+					return false, true
+				}
+			}
+			return false, false
+		}
+		cons := fmt.Sprintf("wal.Reader.readRecord:later-read-eof#%d", i)
+		var badRet ssa.Instruction
+		var badPath []*ssa.BasicBlock
+		for _, ret := range Returns(rec) {
+			ret := ret
+			hit, path := ReachE(rec, rd, func(x ssa.Instruction) bool { return x == ssa.Instruction(ret) }, nil, PruneFactEdges(notEOF))
+			if hit == nil {
+				continue
+			}
+			// resolve the returned error along this path
+			v := ReturnValue(ret, 1)
+			for k := 0; k < 6; k++ {
+				phi, ok := stripConv(v).(*ssa.Phi)
+				if !ok {
+					break
+				}
+				idx := -1
+				for j, b := range path {
+					if b == phi.Block() && j > 0 {
+						for e, p := range phi.Block().Preds {
+							if p == path[j-1] {
+								idx = e
+							}
+						}
+					}
+				}
+				if idx < 0 {
+					break
+				}
+				v = phi.Edges[idx]
+			}
+			if isRaw(v) {
+				badRet, badPath = ret, path
+			}
+		}
+		if badRet != nil {
+			r.Bad(cons, c.InsPos(rd), "a read that is not the first of the record passes its error through unchanged: when the file ends exactly behind the record header, io.ReadFull answers a plain io.EOF and the torn record looks like a clean end of the log (the file is then reused for appending behind the stray header)", c.PathString(badPath)...)
+		} else {
+			r.OK(cons, c.InsPos(rd), "the error of this later read cannot leave as io.EOF")
+		}
 	}
 	// ReadEntry returns io.EOF only with no pending fragments
 	noPending := func(cond ssa.Value) (bool, bool) {
